@@ -41,6 +41,43 @@ fn strategy(tier: Tier) -> BoxedStrategy<Case> {
         .boxed()
 }
 
+/// Storage that takes its time over one write: the operation whose path ends in `suffix`
+/// does not start before the wall clock reaches `until` (seconds since the epoch).
+struct SlowAt {
+    suffix: &'static str,
+    until: f64,
+}
+
+impl conserve::transport::verif::Interceptor for SlowAt {
+    fn before(&self, call: &conserve::transport::verif::Call<'_>) -> conserve::transport::verif::Action {
+        if call.path.ends_with(self.suffix) {
+            loop {
+                let now = std::time::SystemTime::now().duration_since(std::time::UNIX_EPOCH).unwrap().as_secs_f64();
+                if now >= self.until {
+                    break;
+                }
+                std::thread::sleep(std::time::Duration::from_millis(50));
+                crate::engine::heartbeat();
+            }
+        }
+        conserve::transport::verif::Action::Proceed
+    }
+}
+
+/// Storage that refuses to remove the block files whose name starts with one of 0-7.
+struct RefuseHalfOfTheBlocks;
+
+impl conserve::transport::verif::Interceptor for RefuseHalfOfTheBlocks {
+    fn before(&self, call: &conserve::transport::verif::Call<'_>) -> conserve::transport::verif::Action {
+        use conserve::transport::record::Verb;
+        use conserve::transport::verif::Action;
+        let refuse = call.verb == Verb::RemoveFile
+            && call.path.starts_with("d/")
+            && call.path.rsplit('/').next().and_then(|n| n.chars().next()).map_or(false, |c| ('0'..='7').contains(&c));
+        if refuse { Action::Fail(conserve::transport::ErrorKind::PermissionDenied) } else { Action::Proceed }
+    }
+}
+
 fn normalise(path: &str, bytes: &[u8]) -> Vec<u8> {
     let key = if path.ends_with("/BANDHEAD") {
         Some("start_time")
@@ -266,8 +303,16 @@ fn enumerate(_tier: Tier, idx: u32, of: u32, cx: &mut Cx) -> CaseResult {
         }
         let arch = sub.join(name);
         ensure!(ops::create_archive(&arch).clean(), "C17/create", "probe");
-        for _ in 0..2 {
-            let b = ops::backup(&arch, &None, &src, o, &[]);
+        for round in 0..3 {
+            // In the first replay the second backup runs on slow storage: it starts before
+            // the file's mtime and its index hunk (and then its tail) is written after it, so that the file's mtime
+            // falls between the start and end times the band records.
+            let hook: Hook = if i == 0 && round == 1 {
+                Some(Arc::new(SlowAt { suffix: "b0001/i/00000/000000000", until: now as f64 + 2.1 }) as Arc<dyn conserve::transport::verif::Interceptor>)
+            } else {
+                None
+            };
+            let b = ops::backup(&arch, &hook, &src, o, &[]);
             ensure!(!ops::backup_reported_error(&b), "C17/probe-wall-clock/backup", "{}", b.describe());
         }
         trees.push(format::raw_tree(&arch));
@@ -280,6 +325,36 @@ fn enumerate(_tier: Tier, idx: u32, of: u32, cx: &mut Cx) -> CaseResult {
     crate::engine::force_remove(&sub);
     cx.add_evals(1);
     cx.inner_nontrivial += 1;
+
+    // Many failing removals: 400 one-block files, the version deleted on storage that
+    // refuses to remove about half of the blocks. What is left must not depend on the run.
+    crate::engine::heartbeat();
+    let tree = crate::tree::wide_tree(400, 2, 30, crate::probes::plain_meta());
+    let sub = cx.dir("many-failing-removals");
+    std::fs::create_dir_all(&sub).unwrap();
+    let src = sub.join("src");
+    crate::tree::materialise(&tree, &src);
+    let mut trees = vec![];
+    for name in ["arch_a", "arch_b"] {
+        let arch = sub.join(name);
+        ensure!(ops::create_archive(&arch).clean(), "C17/create", "probe");
+        let b = ops::backup(&arch, &None, &src, Opts { hunk: 50, block: 1 << 16, cap: 0 }, &[]);
+        ensure!(!ops::backup_reported_error(&b), "C17/probe-many-failing-removals/backup", "{}", b.describe());
+        let hook: Hook = Some(Arc::new(RefuseHalfOfTheBlocks) as Arc<dyn conserve::transport::verif::Interceptor>);
+        let d = ops::delete_bands(&arch, &hook, &[0], false, false);
+        ensure!(d.panic.is_none(), "C17/probe-many-failing-removals/delete-panic", "{}", d.describe());
+        trees.push(format::raw_tree(&arch));
+    }
+    let refused = trees[0].keys().filter(|p| p.starts_with("d/") && !p.ends_with('/')).count();
+    ensure!(refused >= 100, "C17/harness/probe", "only {refused} blocks were refused");
+    compare(&trees[0], &trees[1], 1).map_err(|mut f| {
+        f.signature = format!("{}/probe-many-failing-removals", f.signature);
+        f.message = format!("two deletes of the same version on storage that refuses the same removals leave different files: {}", f.message);
+        f
+    })?;
+    crate::engine::force_remove(&sub);
+    cx.add_evals(1);
+    cx.inner_nontrivial += 1;
     Ok(())
 }
 
@@ -287,7 +362,7 @@ pub fn prop() -> Prop<Case> {
     Prop {
         id: "C17",
         level: "exploration",
-        rule: "case = (history as C02 with <=10 ops quick / <=20 thorough, worker count in {1,2,4}, 0-23 perturbation bytes). Every step is applied to the one source and then to two fresh archives: A on a current-thread runtime with serialized storage operations, B on a multi-thread runtime with that many workers, storage operations not serialized (conserve's concurrent listing/validation tasks really overlap) and each preceded by a yield/sleep chosen by the perturbation bytes; interruptions are addressed by the ordinal of the mutating operation in both; in 30% of cases every delete/gc step additionally has one failing block removal, addressed by path (the i-th of the sorted blocks the delete is about to remove), identical in both replays. After every archive operation the two directories must have the same relative file set and byte-identical contents, except that start_time is removed from parsed BANDHEADs and end_time from parsed BANDTAILs. Non-trivial = >=2 backups, some band with >=2 hunks and some combined block; distinct by case hash; evaluations = archive-state comparisons; plus fixed probes per run: two backups (the second incremental) of the 10 012-file tree and of the multi-MiB-block tree under both runtime flavours, and a wall-clock probe (two backups replayed two seconds before and one second after the mtime of one of the files)",
+        rule: "case = (history as C02 with <=10 ops quick / <=20 thorough, worker count in {1,2,4}, 0-23 perturbation bytes). Every step is applied to the one source and then to two fresh archives: A on a current-thread runtime with serialized storage operations, B on a multi-thread runtime with that many workers, storage operations not serialized (conserve's concurrent listing/validation tasks really overlap) and each preceded by a yield/sleep chosen by the perturbation bytes; interruptions are addressed by the ordinal of the mutating operation in both; in 30% of cases every delete/gc step additionally has one failing block removal, addressed by path (the i-th of the sorted blocks the delete is about to remove), identical in both replays. After every archive operation the two directories must have the same relative file set and byte-identical contents, except that start_time is removed from parsed BANDHEADs and end_time from parsed BANDTAILs. Non-trivial = >=2 backups, some band with >=2 hunks and some combined block; distinct by case hash; evaluations = archive-state comparisons; plus fixed probes per run: two backups (the second incremental) of the 10 012-file tree and of the multi-MiB-block tree under both runtime flavours, a wall-clock probe (three backups replayed two seconds before and one second after the mtime of one of the files, the second backup of the first replay on slow storage so that its band's start and end times bracket that mtime), and a version of 400 one-block files deleted twice on storage that refuses to remove half of the blocks",
         assumptions: &[
             "evidence about independence from task scheduling (two runtime flavours + generated perturbations), not a proof over all schedules",
         ],
